@@ -227,25 +227,30 @@ fn parse_integer(string: &str, require_sign: bool) -> Result<Option<Integer>, er
     // Take digits until non-digit character
     // Note that this loop handles post-prefix leading zeros like any other digit
     let mut integer: IntegerValue = 0;
+    // Only reported once the whole token is known to be digits: a non-digit further on makes it a
+    // non-integer token (such as a label), however many digits came first
+    let mut too_large = false;
     for ch in chars.by_ref() {
         let Some(digit) = prefix.radix.parse_digit(ch) else {
             return end_of_integer_result();
         };
-
-        // Re-checked later on convert to smaller int types
-        if integer > IntegerValue::MAX / prefix.radix as IntegerValue {
-            return Err(error::Value::IntegerTooLarge {
-                max: i16::MAX as u16,
-            });
+        if too_large {
+            continue;
         }
 
-        // The check above still lets `MAX / radix * radix + digit` overflow
-        integer = integer
+        // Re-checked later on convert to smaller int types
+        match integer
             .checked_mul(prefix.radix as IntegerValue)
             .and_then(|integer| integer.checked_add(digit as IntegerValue))
-            .ok_or(error::Value::IntegerTooLarge {
-                max: i16::MAX as u16,
-            })?;
+        {
+            Some(value) => integer = value,
+            None => too_large = true,
+        }
+    }
+    if too_large {
+        return Err(error::Value::IntegerTooLarge {
+            max: i16::MAX as u16,
+        });
     }
 
     assert!(
